@@ -215,6 +215,27 @@ func runC11(c *Case) {
 				fail("statement-error", err.Error())
 				return
 			}
+			if hw.inTx && s.Accepted {
+				// inside a transaction that has written: the function must refuse, or name a
+				// version that really holds the rows visible right now
+				raw, verr := hw.conn.Scalar("select s3db_version('" + hw.table + "')")
+				c.Count("version_calls_inside_dirty_tx", 1)
+				if verr == nil {
+					cur, derr := hw.conn.Dump(hw.table)
+					names := parseVersionList(raw)
+					if derr == nil {
+						t, oerr := openVersions(w.st, fmt.Sprintf("intx%d", i), w.prefix, names)
+						var rows []string
+						if oerr == nil {
+							rows, oerr = scanKV(t, cols)
+						}
+						if oerr != nil || firstDiff(cur, rows) != "" {
+							fail("version-inside-tx-names-other-rows", fmt.Sprintf("inside a transaction with uncommitted writes s3db_version() answered %s, which does not hold the rows visible at that moment (%v %s)", raw, oerr, firstDiff(cur, rows)))
+							return
+						}
+					}
+				}
+			}
 			if before != nil && !hw.inTx {
 				after, err := h.record(c, i, wi)
 				if err != nil {
